@@ -341,3 +341,164 @@ Proof.
   intros Hk Hc. unfold np_init_edges at 1. cbv zeta. rewrite (np_init_edges_loop tri nodes d Hk Hc []).
   destruct (init_edges tri nodes d []); reflexivity.
 Qed.
+
+(** * Representation.__init__: check_unique_names(graph_dict); self._init_nodes(...); self._init_edges(graph_dict) *)
+Lemma dict_get_set {V} k k' (v : V) d : dict_get k (dict_set k' v d) = if str_eqb k k' then Some v else dict_get k d.
+Proof.
+  induction d as [|[k0 v0] d IH]; cbn [dict_set dict_get].
+  - destruct (str_eqb k k'); reflexivity.
+  - destruct (str_eqb k' k0) eqn:E0; cbn [dict_get].
+    + apply seqb_eq in E0. subst k0. destruct (str_eqb k k'); reflexivity.
+    + rewrite IH. destruct (str_eqb k k0) eqn:E1; [|reflexivity].
+      apply seqb_eq in E1. subst k0. destruct (str_eqb k k') eqn:E2; [|reflexivity].
+      apply seqb_eq in E2. subst k'. rewrite seqb_refl in E0. discriminate E0.
+Qed.
+Lemma keyed_by_name_set k n nodes : n_name n = k -> keyed_by_name nodes -> keyed_by_name (dict_set k n nodes).
+Proof.
+  intros Hn Hk k' n' H. rewrite dict_get_set in H. destruct (str_eqb k' k) eqn:E.
+  - apply seqb_eq in E. inversion H; subst. reflexivity.
+  - apply Hk. exact H.
+Qed.
+Lemma init_nodes_keyed d : forall acc, keyed_by_name acc -> keyed_by_name (init_nodes d acc).
+Proof.
+  induction d as [|[[ty nm] c] d IH]; intros acc H; [exact H|]. cbn [init_nodes].
+  destruct (str_eqb ty "tumor"); [apply IH, keyed_by_name_set; [reflexivity|exact H]|].
+  destruct (str_eqb ty "lnl"); [apply IH, keyed_by_name_set; [reflexivity|exact H]|]. apply IH, H.
+Qed.
+Lemma keyed_nil : keyed_by_name [].
+Proof. intros k n H. discriminate H. Qed.
+
+(** [tri] is [start.is_trinary] = [len(allowed_states) == 3] with [base = len(allowed_states)] *)
+Definition np_Representation (base : nat) (graph_dict : gdict) : gerr + graph :=
+  match np_check_unique_names graph_dict with
+  | inl e => inl e
+  | inr _ =>
+      match np_init_nodes graph_dict with
+      | inl e => inl e
+      | inr nodes =>
+          match np_init_edges (Nat.eqb base 3) nodes graph_dict with
+          | inl e => inl e
+          | inr edges => inr {| g_base := base; g_nodes := map snd nodes; g_edges := map snd edges |}
+          end
+      end
+  end.
+
+Lemma np_Representation_eq base d : np_Representation base d = build_graph base d.
+Proof.
+  unfold np_Representation, build_graph. rewrite np_check_unique_names_eq.
+  destruct (check_unique_names d) as [e|] eqn:Ec; [reflexivity|]. cbn [opt_err].
+  assert (Hc : check_conns d = None).
+  { rewrite check_unique_names_spec in Ec. destruct (check_conns d); [discriminate Ec|reflexivity]. }
+  rewrite np_init_nodes_eq. unfold model_init_nodes. cbv zeta.
+  destruct (Nat.eqb (length (filter (fun kv => n_tumor (snd kv)) (init_nodes d []))) 0); [reflexivity|].
+  destruct (Nat.eqb (length (filter (fun kv => negb (n_tumor (snd kv))) (init_nodes d []))) 0); [reflexivity|].
+  rewrite np_init_edges_eq; [reflexivity | apply init_nodes_keyed, keyed_nil | exact Hc].
+Qed.
+
+(** * The built graph as an object: its dicts of nodes and edges *)
+Definition node_key (n : node) : string * string := (if n_tumor n then "tumor" else "lnl", n_name n).
+
+Lemma dict_set_keys {V} k (v : V) d :
+  map fst (dict_set k v d) = if mem k (map fst d) then map fst d else map fst d ++ [k].
+Proof.
+  induction d as [|[k0 v0] d IH]; cbn [dict_set map fst mem]; [reflexivity|].
+  destruct (str_eqb k k0) eqn:E; cbn [orb map fst].
+  - apply seqb_eq in E. subst. reflexivity.
+  - rewrite IH. destruct (mem k (map fst d)); reflexivity.
+Qed.
+Lemma dict_set_NoDup {V} k (v : V) d : NoDup (map fst d) -> NoDup (map fst (dict_set k v d)).
+Proof.
+  intros H. rewrite dict_set_keys. destruct (mem k (map fst d)) eqn:E; [exact H|].
+  apply NoDup_app_intro; [exact H | repeat constructor; intros [] |].
+  intros x Hx [<-|[]]. apply gmem_nIn in E. contradiction.
+Qed.
+Lemma init_nodes_NoDup d : forall acc, NoDup (map fst acc) -> NoDup (map fst (init_nodes d acc)).
+Proof.
+  induction d as [|[[ty nm] c] d IH]; intros acc H; [exact H|]. cbn [init_nodes].
+  destruct (str_eqb ty "tumor"); [apply IH, dict_set_NoDup, H|].
+  destruct (str_eqb ty "lnl"); [apply IH, dict_set_NoDup, H|]. apply IH, H.
+Qed.
+Lemma keyed_values_names nodes : NoDup (map fst nodes) -> keyed_by_name nodes -> map n_name (map snd nodes) = map fst nodes.
+Proof.
+  intros Hnd Hk. rewrite map_map. apply map_ext_in. intros [k n] Hin. cbn [fst snd].
+  apply Hk. apply dict_get_In; assumption.
+Qed.
+
+Lemma build_graph_nodes base d g : build_graph base d = inr g -> NoDup (map n_name (g_nodes g)).
+Proof.
+  unfold build_graph. destruct (check_unique_names d); [discriminate|]. cbv zeta.
+  destruct (Nat.eqb _ 0); [discriminate|]. destruct (Nat.eqb _ 0); [discriminate|].
+  destruct (init_edges _ _ _ _); [discriminate|]. intros H. inversion H; subst g. clear H. cbn [g_nodes].
+  assert (Hnd : NoDup (map fst (init_nodes d []))) by (apply init_nodes_NoDup; constructor).
+  rewrite keyed_values_names; [exact Hnd | exact Hnd | apply init_nodes_keyed, keyed_nil].
+Qed.
+Lemma NoDup_names_keys (ns : list node) : NoDup (map n_name ns) -> NoDup (map node_key ns).
+Proof.
+  induction ns as [|n ns IH]; cbn [map]; intros H; [constructor|].
+  apply NoDup_cons_iff in H. destruct H as [Hn H]. constructor; [|apply IH; exact H].
+  intros Hin. apply Hn. apply in_map_iff in Hin. destruct Hin as [m [Hm Hin]].
+  apply in_map_iff. exists m. split; [|exact Hin]. unfold node_key in Hm. inversion Hm. reflexivity.
+Qed.
+
+(** * Representation.to_dict *)
+(** dicts whose keys are pairs of strings *)
+Definition key_eqb (a b : string * string) : bool := str_eqb (fst a) (fst b) && str_eqb (snd a) (snd b).
+Fixpoint kdict_set {V} (k : string * string) (v : V) (d : list ((string * string) * V)) : list ((string * string) * V) :=
+  match d with
+  | [] => [(k, v)]
+  | (k', v') :: r => if key_eqb k k' then (k, v) :: r else (k', v') :: kdict_set k v r
+  end.
+Lemma key_eqb_eq a b : key_eqb a b = true <-> a = b.
+Proof.
+  destruct a as [a1 a2], b as [b1 b2]. unfold key_eqb. cbn [fst snd]. rewrite andb_true_iff, !seqb_eq.
+  split; [intros [-> ->]; reflexivity | intros H; inversion H; auto].
+Qed.
+Lemma kdict_set_fresh {V} k (v : V) acc : ~ In k (map fst acc) -> kdict_set k v acc = acc ++ [(k, v)].
+Proof.
+  induction acc as [|[k' v'] acc IH]; cbn [kdict_set map fst In app]; intros H; [reflexivity|].
+  destruct (key_eqb k k') eqn:E.
+  - apply key_eqb_eq in E. exfalso. apply H. left. symmetry. exact E.
+  - rewrite IH; [reflexivity|]. intros Hin. apply H. right. exact Hin.
+Qed.
+
+(** node.out *)
+Definition py_out (edges : list edge) (node : node) : list edge :=
+  filter (fun e => str_eqb (e_parent e) (n_name node)) edges.
+
+Definition np_to_dict (g : graph) : list ((string * string) * list string) :=
+  let res := ([] : list ((string * string) * list string)) in
+  let res :=
+    fold_left (fun (res : list ((string * string) * list string)) (node : node) =>
+        let node_type := if n_tumor node then "tumor" else "lnl" in
+        let res := kdict_set (node_type, n_name node)
+                     (map (fun o => e_child o) (filter (fun o => negb (is_growth o)) (py_out (g_edges g) node))) res in
+        res) (g_nodes g) res in
+  res.
+
+Lemma filter_filter {A} (p q : A -> bool) l : filter q (filter p l) = filter (fun x => p x && q x) l.
+Proof.
+  induction l as [|a l IH]; cbn [filter]; [reflexivity|].
+  destruct (p a); cbn [filter andb]; [destruct (q a)|]; rewrite IH; reflexivity.
+Qed.
+
+Lemma np_to_dict_loop (F : node -> list string) ns : forall acc,
+  NoDup (map fst acc ++ map node_key ns) ->
+  fold_left (fun (res : list ((string * string) * list string)) (node : node) =>
+               kdict_set (if n_tumor node then "tumor" else "lnl", n_name node) (F node) res) ns acc
+  = acc ++ map (fun n => ((if n_tumor n then "tumor" else "lnl", n_name n), F n)) ns.
+Proof.
+  induction ns as [|n ns IH]; intros acc H; cbn [fold_left map]; [rewrite app_nil_r; reflexivity|].
+  cbn [map] in H. rewrite kdict_set_fresh.
+  - rewrite IH; [rewrite <- app_assoc; reflexivity|]. rewrite map_app. cbn [map fst]. rewrite <- app_assoc. exact H.
+  - intros Hin. apply (NoDup_app_disj _ _ _ H Hin). left. reflexivity.
+Qed.
+
+Lemma np_to_dict_eq g : NoDup (map node_key (g_nodes g)) -> np_to_dict g = to_dict g.
+Proof.
+  intros H. unfold np_to_dict, to_dict. cbv zeta.
+  rewrite (np_to_dict_loop (fun node => map (fun o => e_child o)
+             (filter (fun o => negb (is_growth o)) (py_out (g_edges g) node)))) by exact H.
+  cbn [app]. apply map_ext. intros n. f_equal. unfold out_children, py_out. rewrite filter_filter. reflexivity.
+Qed.
+Lemma np_to_dict_built base d g : build_graph base d = inr g -> np_to_dict g = to_dict g.
+Proof. intros H. apply np_to_dict_eq, NoDup_names_keys, (build_graph_nodes base d), H. Qed.
